@@ -15,7 +15,7 @@ s.connect(os.environ["VSIM_SOCK"])
 env = {k: v for k, v in os.environ.items() if k.startswith(("JADE_", "SLURM_", "VSIM_NODE", "VSIM_HOST"))}
 evf = None
 events = None
-if role == "probe" and os.environ.get("VSIM_JOB_EVENTS") == "1" and os.environ.get("JADE_JOB_NAME") and os.environ.get("JADE_RUNTIME_OUTPUT"):
+if role == "probe" and os.environ.get("VSIM_JOB_EVENTS") in ("1", "2") and os.environ.get("JADE_JOB_NAME") and os.environ.get("JADE_RUNTIME_OUTPUT"):
     # a job that logs structured events the way `jade-internal run <extension>` does: its own events.log under job-outputs,
     # opened once and kept open (a logging.FileHandler), one event at the start and one at the end
     import datetime
@@ -28,6 +28,11 @@ if role == "probe" and os.environ.get("VSIM_JOB_EVENTS") == "1" and os.environ.g
     mk = lambda what, t: json.dumps({"category": "job", "data": {"pid": os.getpid(), "what": what}, "event_class": "StructuredLogEvent", "message": f"{name} {what}", "name": "probe_job", "source": name, "timestamp": str(t)}, sort_keys=True)
     events = [mk("started", t1), mk("finished", t1 + datetime.timedelta(microseconds=1))]
     evf.write(events[0] + "\n")
+    if os.environ.get("VSIM_JOB_EVENTS") == "2":
+        # ... and a resource-utilisation sample, as a periodic resource monitor logs them (consolidated into <name>.parquet)
+        stat = json.dumps({"category": "ResourceUtilization", "data": {"cpu_percent": float(os.getpid() % 97), "idle": 1.5}, "event_class": "StructuredLogEvent", "message": "cpu stats update", "name": "cpu_stats", "source": name, "timestamp": str(t1 + datetime.timedelta(microseconds=2))}, sort_keys=True)
+        evf.write(stat + "\n")
+        events.append(stat)
     evf.flush()
 s.send(
     json.dumps(
